@@ -164,6 +164,10 @@ func checkNode(text []byte, e formula.Expression, depth int) *eng.Fail {
 			pv = m.End()
 		}
 	}
+	// leaves cover exactly their own lexeme (after leading trivia)
+	if f := checkLeaves(text, e); f != nil {
+		return f
+	}
 	// the node's own text parses to the same subtree
 	sub := safeParse(text[pos:end])
 	if sub.panicked {
@@ -305,6 +309,7 @@ func runC15(w *eng.W) {
 			})
 		})
 	}
+	lookaheadForms(w, "lookahead-forms", do)
 	tokenSeqs(w, "full-seq", SigmaFull, 3, do)
 	infixTriples(w, "infix-triples", do)
 	listForms(w, "list-forms", do)
@@ -316,4 +321,59 @@ func runC15(w *eng.W) {
 		k = 5
 	}
 	tokenSeqs(w, "class-seq", SigmaClass, k, do)
+}
+
+// oneLexeme reports whether text[pos:end] is leading trivia followed by exactly one token with
+// the given text (identifier / keyword / operator).
+func oneLexeme(text []byte, pos, end int, want string) bool {
+	if pos < 0 || end > len(text) || pos > end {
+		return false
+	}
+	toks := ref.Lex(text[pos:end])
+	return len(toks) == 2 && toks[0].Text == want && toks[0].End == end-pos
+}
+
+func checkLeaves(text []byte, e formula.Expression) *eng.Fail {
+	tokenOK := func(t *formula.TokenNode, what string) *eng.Fail {
+		if t == nil {
+			return nil
+		}
+		want, ok := tokText[t.Token]
+		if !ok {
+			return nil
+		}
+		if !oneLexeme(text, t.Pos(), t.End(), want) {
+			return eng.F("C15/token-range", "%s token %q has range [%d,%d) covering %q", what, want, t.Pos(), t.End(), safeSlice(text, t.Pos(), t.End()))
+		}
+		return nil
+	}
+	switch n := e.(type) {
+	case *formula.Identifier:
+		if !oneLexeme(text, n.Pos(), n.End(), n.Value) {
+			return eng.F("C15/identifier-range", "identifier %q has range [%d,%d) covering %q", n.Value, n.Pos(), n.End(), safeSlice(text, n.Pos(), n.End()))
+		}
+	case *formula.SelectorExpression:
+		if n.Name != nil && !oneLexeme(text, n.Name.Pos(), n.Name.End(), n.Name.Value) {
+			return eng.F("C15/name-range", "member name %q has range [%d,%d) covering %q", n.Name.Value, n.Name.Pos(), n.Name.End(), safeSlice(text, n.Name.Pos(), n.Name.End()))
+		}
+	case *formula.PrefixUnaryExpression:
+		return tokenOK(n.Operator, "prefix operator")
+	case *formula.BinaryExpression:
+		return tokenOK(n.Operator, "binary operator")
+	case *formula.ConditionalExpression:
+		if f := tokenOK(n.QuestionTok, "?"); f != nil {
+			return f
+		}
+		return tokenOK(n.ColonTok, ":")
+	case *formula.CallExpression:
+		return tokenOK(n.DotDotDotToken, "spread")
+	}
+	return nil
+}
+
+func safeSlice(text []byte, a, b int) string {
+	if a < 0 || b > len(text) || a > b {
+		return "<out of range>"
+	}
+	return string(text[a:b])
 }
